@@ -1,7 +1,9 @@
 """C12 Resources are conserved: never negative, never leaked, claims never wait."""
+from .. import mixed
 from ..faults import sweep
 
 ID = "C12"
+MIXED_SHARE = 0.2
 LEVEL = "fault_enumeration"
 RULE = ("seeded scenarios on one Capacities or Resources supply with 1-2 named integer "
         "resources: 2-5 borrowers/claimants (amounts, holds, nested borrowing from the share), "
@@ -49,6 +51,9 @@ def _amounts(rng, caps, allow_over=False):
 
 
 def generate(rng, tier):
+    if rng.random() < MIXED_SHARE:
+        # the primitive inside blocks of the other primitives (usimdst/mixed.py)
+        return mixed.generate(rng, ID)
     kind = rng.choice(["capacities", "resources"])
     caps = {key: rng.randint(2, 6) for key in (["a"] if rng.random() < 0.6 else ["a", "b"])}
     serial = [0]
@@ -161,6 +166,8 @@ def generate(rng, tier):
 
 def explore(case, base, rng, tier, one):
     victims = [a["name"] for a in case["scenario"]["actors"] if a["name"].startswith("u")]
+    if case.get("family") == "mixed":
+        victims = mixed.victims(case)
     sweep(case, base, rng, one, victims, ("cancel", "interrupt", "close"),
           BUDGET[tier]["per_group"], pairs=BUDGET[tier]["per_group"])
 
